@@ -9,9 +9,21 @@ from harness.common import Ctx, Machinery, tlc_design
 from harness.tracecheck import validate
 
 
-def design(ctx: Ctx, cfg: str | None = None, timeout=1700):
-    cfg = cfg or ("MCDriver_quick.cfg" if ctx.quick else "MCDriver_thorough.cfg")
-    res = tlc_design(ctx, f"design:{cfg}", "MCDriver", cfg, timeout=timeout)
+def design(ctx: Ctx, cfg: str | None = None, timeout=3000, wide=False, restart=False):
+    """Design run of Driver.  quick: MCDriver_quick.cfg.  thorough: the wide configuration lattice (124 M states,
+    ~15 min) for the checks whose point it is (wide=True), the restart-chain lattice (restart=True), else quick."""
+    if cfg is None:
+        if ctx.quick:
+            cfg = "MCDriver_quick.cfg"
+        elif wide:
+            cfg = "MCDriver_thorough.cfg"
+        elif restart:
+            cfg = "MCDriver_thorough_restart.cfg"
+        else:
+            cfg = "MCDriver_quick.cfg"
+    res = tlc_design(ctx, f"design:{cfg}", "MCDriver", cfg, timeout=timeout, heap="24g")
+    if not ctx.quick and restart and cfg != "MCDriver_thorough_restart.cfg":
+        tlc_design(ctx, "design:MCDriver_thorough_restart.cfg", "MCDriver", "MCDriver_thorough_restart.cfg", timeout=timeout, heap="24g")
     return res
 
 
